@@ -65,7 +65,7 @@ def examine_point(row, c, age, carriers=('float',)):
         kw = {}
         if age is not None:
             kw['age'] = age
-        if esaa:
+        if esaa:              # True = the ESAA boys' 800 m row; 'noop' = the option given to a row it does not concern
             kw['esaa'] = True
         r = call(athlib.athlon_score, g, e, value, **kw)
         if want is None:
@@ -108,9 +108,8 @@ def examine(case):
         return examine_unknown(case)
     if case['kind'] == 'sequence':
         return examine_sequence(case)
-    rows = athlon.rows()
-    for row in rows:
-        if row[0] == case['gender'] and row[1] == case['event'] and row[7] == bool(case.get('esaa')):
+    for row in all_rows():
+        if row[0] == case['gender'] and row[1] == case['event'] and row[7] == (case.get('esaa') or False):
             return examine_point(row, case['centi'], case['age'], ('float', 'int'))[0]
     return []
 
@@ -135,9 +134,13 @@ def hazard_marks(fr, hi, cap, rng):
     return ms
 
 
+def all_rows():
+    return athlon.rows() + athlon.rows_with_option()
+
+
 def shard(ctx, payload):
     ri, mode = payload
-    row = athlon.rows()[ri]
+    row = all_rows()[ri]
     g, e, te, A, Z, X, kind, esaa = row
     hi = mark_range(row)
     rng = random.Random(derive_seed(ctx.seed, 'C01', ri))
@@ -158,6 +161,17 @@ def shard(ctx, payload):
             ctx.nontrivial((ri, c, age), sample)
 
     # (1) age=None: the complete grid (both tiers)
+    if mode == 'grid-option':
+        # the ESAA option on a row it does not concern: a strided grid, a few ages
+        stride = 1 if thorough else 9
+        off = rng.randrange(stride)
+        for c in range(off, hi + 1, stride):
+            do(c, None, ('float',))
+        for age in (20, 47, 83):
+            for c in rng.sample(range(0, hi + 1), 60):
+                do(c, age, ('float',))
+        ctx.label('esaa-option-on-other-rows', 1)
+        return
     if mode == 'grid':
         stride = 1
         off = rng.randrange(stride)
@@ -207,11 +221,10 @@ reset_state()        # snapshot at import, before anything is scored
 def examine_sequence(case):
     """Points scored one after the other from the just-imported state; every one is judged (the last is the finding)."""
     reset_state()
-    rows = athlon.rows()
-    by = {(r[0], r[1], r[7]): r for r in rows}
+    by = {(r[0], r[1], r[7]): r for r in all_rows()}
     out = []
     for g, e, c, age, esaa in case['points']:
-        row = by.get((g, e, bool(esaa)))
+        row = by.get((g, e, esaa or False))
         if row is None:
             continue
         out = examine_point(row, c, age, ('float',))[0]
@@ -277,7 +290,9 @@ def shrink(bucket):
 
 def run(ctx):
     rows = athlon.rows()
-    payloads = [(i, 'grid') for i in range(len(rows))] + [(i, 'ages') for i in range(len(rows))]
+    allr = all_rows()
+    payloads = [(i, 'grid') for i in range(len(rows))] + [(i, 'ages') for i in range(len(rows))] + \
+        [(i, 'grid-option') for i in range(len(rows), len(allr))]
     # rows and modes partition the domain: distinct counts add up
     run_shards(ctx, 'checks.c01', 'shard', payloads, disjoint=True)
     for g, e in UNKNOWN:
@@ -287,7 +302,7 @@ def run(ctx):
                 ctx.count()
                 ctx.label('unknown-pair')
                 ctx.violations(examine_unknown(case))
-    mixed_pass(ctx, rows)
+    mixed_pass(ctx, allr)
     ctx.extra['rows'] = len(rows)
     ctx.exhaustive = False
     if True:
